@@ -31,7 +31,8 @@ Theorem C02_receipt_unknown :
 Proof. split; [exact receipt_unknown_id | exact receipt_without_id]. Qed.
 
 (* one segmented message accepted in full, k >= 2 segments (no bound), ANY admissible interleaving
-   of its puts, accepting responses and receipts, any error codes below the internal status range:
+   of its puts (in the order sent: segment 1 first), accepting responses and receipts, any error codes below the
+   internal status range:
    every receipt but the completing one yields the placeholder; the completing one yields exactly one
    receipt event carrying the message's identity *)
 Theorem C02_segmented_receipts :
@@ -61,5 +62,5 @@ Example C02_nonvacuous :
   /\ valid 2 (fun _ => PNot) None [GPut 0; GPut 1; GResp 0 21; GResp 1 22; GRcpt 1 32 0; GRcpt 0 31 3].
 Proof.
   split; [vm_compute; reflexivity|].
-  cbn. unfold upd. cbn. assert (STATUS_SENT = 65532) as -> by reflexivity. repeat split; try lia; reflexivity.
+  cbn. unfold upd. cbn. assert (STATUS_SENT = 65532) as -> by reflexivity. repeat split; try lia; try reflexivity; try discriminate; intros; discriminate.
 Qed.
